@@ -26,8 +26,26 @@ def leaf_cl(out):
     wcond = strip(kids(whiles[0])[0])
     while wcond.get('kind') in ('ImplicitCastExpr', 'CXXMemberCallExpr', 'MemberExpr', 'ExprWithCleanups', 'CXXOperatorCallExpr') and len(kids(wcond)) == 1:
         wcond = strip(kids(wcond)[0])
-    if not (wcond.get('kind') == 'DeclRefExpr' and member_name(wcond) == 'node'):
-        raise Untranslatable('doForEachIf: the loop condition is not just `node`')
+    # local names are read off the declarations, not assumed: the cursor is the local initialised from `head`, the
+    # captured generation the local initialised from `currentCounter`
+    def local_from(body_, member):
+        for v in find_all(body_, 'VarDecl'):
+            if any(member_name(x) == member for x in walk(v)):
+                return v.get('name')
+        for a in walk(body_):
+            if (a.get('kind') == 'BinaryOperator' and a.get('opcode') == '=') or \
+               (a.get('kind') == 'CXXOperatorCallExpr' and len(kids(a)) == 3 and
+                    (strip(kids(a)[0]).get('referencedDecl') or {}).get('name') == 'operator='):
+                lhs, rhs = kids(a)[-2], kids(a)[-1]
+                if strip(lhs).get('kind') == 'DeclRefExpr' and member_name(strip(rhs)) == member:
+                    return member_name(lhs)
+        return None
+    cursor = local_from(body, 'head')
+    captured_name = local_from(body, 'currentCounter')
+    if cursor is None or captured_name is None:
+        raise Untranslatable('doForEachIf: no local initialised from head / from currentCounter')
+    if not (wcond.get('kind') == 'DeclRefExpr' and member_name(wcond) == cursor):
+        raise Untranslatable('doForEachIf: the loop condition is not just the cursor `%s`' % cursor)
     if any(x.get('kind') in ('BreakStmt', 'ContinueStmt', 'GotoStmt') for x in walk(wbody)):
         raise Untranslatable('doForEachIf: break/continue/goto inside the traversal loop')
     rets = [x for x in walk(wbody) if x.get('kind') == 'ReturnStmt']
@@ -43,7 +61,7 @@ def leaf_cl(out):
         nm = member_name(n)
         if n.get('kind') in ('MemberExpr', 'CXXDependentScopeMemberExpr') and nm == 'counter':
             return 'node_ctr'
-        if n.get('kind') == 'DeclRefExpr' and nm == 'counter':
+        if n.get('kind') == 'DeclRefExpr' and nm == captured_name:
             return 'captured'
         if n.get('kind') == 'DeclRefExpr' and nm == 'removedCounter':
             return 'removed_marker'
@@ -74,8 +92,16 @@ def leaf_cl(out):
     if len(ifs) != 1:
         raise Untranslatable('getNextCounter: expected one if')
 
+    drawn = None
+    for v in find_all(body, 'VarDecl'):
+        if any(member_name(x) == 'currentCounter' for x in walk(v)):
+            drawn = v.get('name')
+            break
+    if drawn is None:
+        raise Untranslatable('getNextCounter: no local initialised from currentCounter')
+
     def atom2(n):
-        if n.get('kind') == 'DeclRefExpr' and member_name(n) == 'result':
+        if n.get('kind') == 'DeclRefExpr' and member_name(n) == drawn:
             return 'result'
         return None
     wrap_test = Tr(atom2).expr(kids(ifs[0])[0])
@@ -97,24 +123,39 @@ def leaf_cl(out):
     if not walks_next:
         raise Untranslatable('getNextCounter: wrap loop does not walk head->next')
 
-    # --- guards: is the unlink in remove / the walk in ownsHandle / doInsert in insert guarded by counter != removedCounter
+    # --- guards: is the unlink in remove / the positive answer of ownsHandle / doInsert in insert reached only when
+    # `node->counter != removedCounter` held at the test?  Decided on path conditions (leafcore.reached_under), so that
+    # `if(a && c != r) { act }`, `if(!a || c == r) return; act`, `if(c == r) other else act` all count alike.
+    R = ('atom', 'node_is_removed')
+
+    def classify(n):
+        if n.get('kind') == 'BinaryOperator' and n.get('opcode') in ('==', '!='):
+            names = set(member_name(x) for x in walk(n))
+            if 'counter' in names and 'removedCounter' in names:
+                return R if n.get('opcode') == '==' else ('not', R)
+        return None
+
+    def calls(x, callee):
+        return (x.get('kind') in ('CXXMemberCallExpr', 'CallExpr') and any(
+            member_name(c) == callee or (strip(c).get('kind') in ('UnresolvedMemberExpr', 'UnresolvedLookupExpr') and strip(c).get('name') == callee)
+            for c in kids(x)[:1]))
+
     def guarded(fname, callee):
         fn, body = find_function(trees, fname)
-        for i in find_all(body, 'IfStmt'):
-            cond = kids(i)[0]
-            names = set(member_name(x) for x in walk(cond))
-            if 'counter' in names and 'removedCounter' in names:
-                # the guarded action must be inside this if's then-branch
-                then = kids(i)[1]
-                if callee is None or any(member_name(x) == callee or (x.get('kind') == 'UnresolvedMemberExpr' and x.get('name') == callee)
-                                         or (x.get('kind') == 'UnresolvedLookupExpr' and x.get('name') == callee) for x in walk(then)):
-                    # and the test must be an inequality
-                    txt = Tr(lambda n: ('node_ctr' if member_name(n) == 'counter' and n.get('kind') != 'DeclRefExpr' else
-                                        ('removed_marker' if member_name(n) == 'removedCounter' else
-                                         ('true' if n.get('kind') in ('DeclRefExpr', 'CXXOperatorCallExpr', 'CXXMemberCallExpr') and member_name(n) not in ('counter', 'removedCounter') and n.get('kind') != 'BinaryOperator' else None)))).expr(cond)
-                    if 'negb (N.eqb node_ctr removed_marker)' in txt or 'negb (N.eqb removed_marker node_ctr)' in txt:
-                        return True
-        return False
+        if callee is None:
+            # every return that can hand out `true`
+            def target(x):
+                if x.get('kind') != 'ReturnStmt' or not kids(x):
+                    return False
+                v = strip(kids(x)[0])
+                return not (v.get('kind') == 'CXXBoolLiteralExpr' and not v.get('value'))
+        else:
+            def target(x):
+                return calls(x, callee)
+        hits = reached_under(body, classify, target)
+        if not hits:
+            raise Untranslatable('%s: %s not found' % (fname, ('call of ' + callee) if callee else 'a return of a non-false value'))
+        return all(implies(pc, ('not', R)) for _, pc in hits)
     g_remove = guarded('remove', 'doFreeNode')
     g_insert = guarded('insert', 'doInsert')
     g_owns = guarded('ownsHandle', None)
